@@ -11,8 +11,8 @@ package sched
 
 import (
 	"fmt"
-	"hash/fnv"
 	"os"
+	"sort"
 	"sync"
 	"syscall"
 	"unsafe"
@@ -22,33 +22,34 @@ import (
 
 // ---------------------------------------------------------------- contexts
 
-// Ctx identifies who performs an operation.
+// Ctx identifies who performs an operation. All per-task state lives here so
+// that no harness memory is shared between task goroutines (the race detector
+// instruments runtime map and slice helpers even below //go:norace callers).
 type Ctx struct {
-	Task int
-	Call int
-	Exec int
+	Task   int
+	Call   int
+	Exec   int
+	ops    []scen.Op
+	fcount map[string]int
 }
 
 var (
-	mainCtx = Ctx{Task: 0, Call: -1}
+	mainCtx = &Ctx{Task: 0, Call: -1}
+	allCtx  = []*Ctx{mainCtx}
 	active  *Sim
 	cur     *Task
 
-	opLog   []scen.Op
-	opSeq   int64
-	faults  []scen.Fault
-	fcount  map[string]int
-	Probes  = map[string]int{}
-	killFn  func() // flushes the report and exits; installed by the harness
-	logging = true
+	opSeq  int64
+	faults []scen.Fault
+	killFn func() // flushes the report and exits; installed by the harness
 )
 
 //go:norace
 func curCtx() *Ctx {
 	if active != nil && cur != nil {
-		return &cur.Ctx
+		return cur.Ctx
 	}
-	return &mainCtx
+	return mainCtx
 }
 
 // BeginCall / EndCall bracket one Match* call of the current task.
@@ -73,16 +74,22 @@ func CurTask() int { return curCtx().Task }
 //go:norace
 func Seq() int64 { return opSeq }
 
+// Ops merges the per-task operation logs in global order. Call it only when
+// no task is running.
+//
 //go:norace
-func Ops() []scen.Op { return opLog }
-
-//go:norace
-func Probe(name string) { Probes[name]++ }
+func Ops() []scen.Op {
+	var out []scen.Op
+	for _, c := range allCtx {
+		out = append(out, c.ops...)
+	}
+	sort.Slice(out, func(i, j int) bool { return out[i].Seq < out[j].Seq })
+	return out
+}
 
 //go:norace
 func SetFaults(f []scen.Fault, kill func()) {
 	faults = f
-	fcount = map[string]int{}
 	killFn = kill
 }
 
@@ -91,25 +98,32 @@ func SetFaults(f []scen.Fault, kill func()) {
 // OpRec is one disk operation in flight.
 type OpRec struct {
 	op    scen.Op
+	c     *Ctx
 	Fault *scen.Fault
+}
+
+func hashStr(s string) uint64 {
+	h := uint64(14695981039346656037)
+	for i := 0; i < len(s); i++ {
+		h ^= uint64(s[i])
+		h *= 1099511628211
+	}
+	return h
 }
 
 // Enter is called by a shim before it performs a disk operation: it yields to
 // the scheduler, numbers the operation and consults the fault plan.
-//
-//go:norace
 func Enter(kind, path, arg string, mut bool) *OpRec {
-	yield(kind, path, 0)
+	yieldOp(hashStr(kind), hashStr(path), windowOp(kind))
 	c := curCtx()
-	opSeq++
-	r := &OpRec{op: scen.Op{Seq: opSeq, Task: c.Task, Call: c.Call, Exec: c.Exec, Kind: kind, Path: path, Arg: arg, Mut: mut}}
+	r := &OpRec{c: c, op: scen.Op{Seq: nextSeq(), Task: c.Task, Call: c.Call, Exec: c.Exec, Kind: kind, Path: path, Arg: arg, Mut: mut}}
 	if len(faults) > 0 {
 		r.Fault = matchFault(kind, path, c)
 		if r.Fault != nil {
 			r.op.Fault = true
 			if r.Fault.Kill {
 				r.op.Err = "KILL"
-				opLog = append(opLog, r.op)
+				c.ops = append(c.ops, r.op)
 				if killFn != nil {
 					killFn()
 				}
@@ -121,6 +135,11 @@ func Enter(kind, path, arg string, mut bool) *OpRec {
 }
 
 //go:norace
+func nextSeq() int64 {
+	opSeq++
+	return opSeq
+}
+
 func matchFault(kind, path string, c *Ctx) *scen.Fault {
 	for i := range faults {
 		f := &faults[i]
@@ -134,8 +153,11 @@ func matchFault(kind, path string, c *Ctx) *scen.Fault {
 			continue
 		}
 		key := fmt.Sprintf("%d|%s|%s|%d", i, kind, path, c.Call)
-		fcount[key]++
-		if fcount[key] == f.Nth {
+		if c.fcount == nil {
+			c.fcount = map[string]int{}
+		}
+		c.fcount[key]++
+		if c.fcount[key] == f.Nth {
 			return f
 		}
 	}
@@ -148,16 +170,12 @@ func hasSuffix(s, suf string) bool { return len(s) >= len(suf) && s[len(s)-len(s
 func (r *OpRec) SetMut(m bool) { r.op.Mut = m }
 
 // Done records the result.
-//
-//go:norace
 func (r *OpRec) Done(n int64, err error) {
 	r.op.N = n
 	if err != nil {
 		r.op.Err = err.Error()
 	}
-	if logging {
-		opLog = append(opLog, r.op)
-	}
+	r.c.ops = append(r.c.ops, r.op)
 }
 
 // FaultErr returns the errno to inject, or nil.
@@ -188,29 +206,35 @@ const (
 	kUnlock
 	kRUnlock
 	kTryLock
+	kTryRLock
 )
 
+// pendOp is the mailbox a parked task leaves for the scheduler. Only plain
+// words: the scheduler never follows a pointer into task-owned memory.
 type pendOp struct {
-	kind string
-	obj  string
+	hk   uint64 // hash of the operation kind
+	ho   uint64 // hash of the object (path or lock)
+	win  bool   // a pre-emption right after this op opens a window
 	lock uintptr
 	lk   int
 }
 
 type Task struct {
-	ID    int
-	Name  string
-	Ctx   Ctx
-	rfd   int
-	wfd   int
-	pend  pendOp
-	done  bool
-	prio  int
-	steps int
-	last  string
+	ID      int
+	Name    string
+	Ctx     *Ctx
+	rfd     int
+	wfd     int
+	pend    pendOp
+	done    bool
+	tryOK   bool
+	prio    int
+	steps   int
+	lastWin bool
 }
 
 type lockState struct {
+	id      int
 	writer  int // task id or -1
 	readers map[int]int
 }
@@ -221,13 +245,12 @@ type Sim struct {
 	srfd       int
 	swfd       int
 	locks      map[uintptr]*lockState
-	lockIDs    map[uintptr]int
 	rng        *scen.Rand
 	Decisions  []int
 	Steps      int
 	hash       uint64
 	chash      uint64
-	objUsers   map[string]map[int]bool
+	objUsers   map[uint64]map[int]bool
 	seqlog     []stepRec
 	Deadlock   string
 	StepCap    bool
@@ -241,8 +264,8 @@ type Sim struct {
 
 type stepRec struct {
 	task int
-	kind string
-	obj  string
+	hk   uint64
+	ho   uint64
 }
 
 func pipe() (int, int) {
@@ -286,9 +309,9 @@ func rawRead(fd int) {
 }
 
 // NewSim prepares a simulation. onAbort is called (on the scheduler goroutine)
-// when the run deadlocks or exceeds its step budget; it must not return.
+// when the run deadlocks or exceeds its step budget.
 func NewSim(spec scen.SchedSpec, onAbort func()) *Sim {
-	s := &Sim{spec: spec, locks: map[uintptr]*lockState{}, rng: scen.NewRand(spec.Seed), objUsers: map[string]map[int]bool{}, onAbort: onAbort}
+	s := &Sim{spec: spec, locks: map[uintptr]*lockState{}, rng: scen.NewRand(spec.Seed), objUsers: map[uint64]map[int]bool{}, onAbort: onAbort}
 	s.srfd, s.swfd = pipe()
 	if s.spec.MaxSteps == 0 {
 		s.spec.MaxSteps = 20000
@@ -299,9 +322,10 @@ func NewSim(spec scen.SchedSpec, onAbort func()) *Sim {
 // Go registers a task. Must be called before Run.
 func (s *Sim) Go(name string, body func()) *Task {
 	t := &Task{ID: len(s.tasks) + 1, Name: name}
-	t.Ctx = Ctx{Task: t.ID, Call: -1}
+	t.Ctx = &Ctx{Task: t.ID, Call: -1}
+	allCtx = append(allCtx, t.Ctx)
 	t.rfd, t.wfd = pipe()
-	t.pend = pendOp{kind: "start"}
+	t.pend = pendOp{hk: 1}
 	s.tasks = append(s.tasks, t)
 	s.wg.Add(1)
 	go func() {
@@ -319,56 +343,50 @@ func taskEnd(s *Sim, t *Task) {
 	rawWrite(s.swfd)
 }
 
-// yield parks the calling task until the scheduler picks it again.
+// yieldOp parks the calling task until the scheduler picks it again.
 //
 //go:norace
-func yield(kind, obj string, lock uintptr) {
-	yieldLock(kind, obj, lock, 0)
-}
-
-//go:norace
-func yieldLock(kind, obj string, lock uintptr, lk int) {
+func yieldOp(hk, ho uint64, win bool) {
 	s := active
 	if s == nil || cur == nil {
 		return
 	}
 	t := cur
-	t.pend = pendOp{kind: kind, obj: obj, lock: lock, lk: lk}
+	t.pend = pendOp{hk: hk, ho: ho, win: win}
 	rawWrite(s.swfd)
 	rawRead(t.rfd)
 }
 
 // YieldLock is the yield point of the simsync shim. It returns only when the
-// scheduler has granted the lock operation in its own lock table.
+// scheduler has granted the lock operation in its own lock table. The first
+// result says whether a simulation is active, the second is the outcome of a
+// TryLock / TryRLock.
 //
 //go:norace
-func YieldLock(lock uintptr, lk int) bool {
-	if active == nil || cur == nil {
-		return false
-	}
-	names := [...]string{"", "lock", "rlock", "unlock", "runlock", "trylock"}
-	yieldLock(names[lk], lockName(lock), lock, lk)
-	return true
-}
-
-//go:norace
-func lockName(lock uintptr) string {
+func YieldLock(lock uintptr, lk int) (bool, bool) {
 	s := active
-	if s.lockIDs == nil {
-		s.lockIDs = map[uintptr]int{}
+	if s == nil || cur == nil {
+		return false, false
 	}
-	id, ok := s.lockIDs[lock]
-	if !ok {
-		id = len(s.lockIDs) + 1
-		s.lockIDs[lock] = id
-	}
-	return fmt.Sprintf("mu%d", id)
+	t := cur
+	t.pend = pendOp{hk: uint64(100 + lk), lock: lock, lk: lk, win: lk == kUnlock || lk == kRUnlock}
+	rawWrite(s.swfd)
+	rawRead(t.rfd)
+	return true, t.tryOK
 }
 
 // Yield is a plain yield point (used by shims without disk access).
-//
+func Yield(kind, obj string) { yieldOp(hashStr(kind), hashStr(obj), false) }
+
 //go:norace
-func Yield(kind, obj string) { yield(kind, obj, 0) }
+func (s *Sim) lockOf(p uintptr) *lockState {
+	ls := s.locks[p]
+	if ls == nil {
+		ls = &lockState{id: len(s.locks) + 1, writer: -1, readers: map[int]int{}}
+		s.locks[p] = ls
+	}
+	return ls
+}
 
 //go:norace
 func (s *Sim) enabledTasks() []*Task {
@@ -378,14 +396,14 @@ func (s *Sim) enabledTasks() []*Task {
 			continue
 		}
 		if t.pend.lock != 0 {
-			ls := s.locks[t.pend.lock]
+			ls := s.lockOf(t.pend.lock)
 			switch t.pend.lk {
 			case kLock:
-				if ls != nil && (ls.writer >= 0 || len(ls.readers) > 0) {
+				if ls.writer >= 0 || len(ls.readers) > 0 {
 					continue
 				}
 			case kRLock:
-				if ls != nil && ls.writer >= 0 {
+				if ls.writer >= 0 {
 					continue
 				}
 			}
@@ -401,11 +419,8 @@ func (s *Sim) grant(t *Task) {
 	if p.lock == 0 {
 		return
 	}
-	ls := s.locks[p.lock]
-	if ls == nil {
-		ls = &lockState{writer: -1, readers: map[int]int{}}
-		s.locks[p.lock] = ls
-	}
+	ls := s.lockOf(p.lock)
+	t.pend.ho = uint64(ls.id) * 7919
 	switch p.lk {
 	case kLock:
 		ls.writer = t.ID
@@ -418,13 +433,23 @@ func (s *Sim) grant(t *Task) {
 		if ls.readers[t.ID] <= 0 {
 			delete(ls.readers, t.ID)
 		}
+	case kTryLock:
+		t.tryOK = ls.writer < 0 && len(ls.readers) == 0
+		if t.tryOK {
+			ls.writer = t.ID
+		}
+	case kTryRLock:
+		t.tryOK = ls.writer < 0
+		if t.tryOK {
+			ls.readers[t.ID]++
+		}
 	}
 }
 
 // windowOp: operations right after which a pre-emption is most interesting.
 func windowOp(kind string) bool {
 	switch kind {
-	case "read", "readfile", "truncate", "openfile", "unlock", "runlock", "stat", "seek", "write":
+	case "read", "readfile", "truncate", "openfile", "fstat", "seek", "write":
 		return true
 	}
 	return false
@@ -441,18 +466,10 @@ func (s *Sim) choose(en []*Task) *Task {
 			}
 		}
 		s.ForcedMiss++
-		// fall through to a deterministic default: keep running, else lowest id
-		if s.running != nil {
-			for _, t := range en {
-				if t == s.running {
-					return t
-				}
-			}
-		}
-		return en[0]
 	}
 	if len(s.spec.Forced) > 0 {
-		// replay beyond the recorded prefix: run to completion, lowest id first
+		// replay beyond (or off) the recorded decisions: keep running the
+		// current task, else the lowest id
 		if s.running != nil {
 			for _, t := range en {
 				if t == s.running {
@@ -470,7 +487,7 @@ func (s *Sim) choose(en []*Task) *Task {
 				t.prio = 1000 + s.rng.Intn(1000)*16 + t.ID
 			}
 			for i := 0; i < s.spec.Depth; i++ {
-				s.changeAt[1+s.rng.Intn(120)] = true
+				s.changeAt[1+s.rng.Intn(150)] = true
 			}
 		}
 		best := en[0]
@@ -495,8 +512,8 @@ func (s *Sim) choose(en []*Task) *Task {
 			for _, t := range en {
 				if t == s.running {
 					p := 0.02
-					if windowOp(t.last) {
-						p = 0.25
+					if t.lastWin {
+						p = 0.3
 					}
 					if s.preempts < s.spec.Depth && len(en) > 1 && s.rng.Bool(p) {
 						s.preempts++
@@ -521,7 +538,7 @@ func (s *Sim) choose(en []*Task) *Task {
 //go:norace
 func (s *Sim) Run() {
 	active = s
-	h := fnv.New64a()
+	h := uint64(14695981039346656037)
 	for {
 		alive := 0
 		for _, t := range s.tasks {
@@ -533,16 +550,13 @@ func (s *Sim) Run() {
 			break
 		}
 		en := s.enabledTasks()
-		if len(en) == 0 {
-			s.Deadlock = s.describeBlocked()
-			s.finishHashes(h.Sum64())
-			active, cur = nil, nil
-			s.onAbort()
-			os.Exit(3)
-		}
-		if s.Steps >= s.spec.MaxSteps {
-			s.StepCap = true
-			s.finishHashes(h.Sum64())
+		if len(en) == 0 || s.Steps >= s.spec.MaxSteps {
+			if len(en) == 0 {
+				s.Deadlock = s.describeBlocked()
+			} else {
+				s.StepCap = true
+			}
+			s.finishHashes(h)
 			active, cur = nil, nil
 			s.onAbort()
 			os.Exit(3)
@@ -551,17 +565,19 @@ func (s *Sim) Run() {
 		s.grant(t)
 		s.Decisions = append(s.Decisions, t.ID)
 		s.Steps++
-		fmt.Fprintf(h, "%d|%s|%s;", t.ID, t.pend.kind, t.pend.obj)
-		s.seqlog = append(s.seqlog, stepRec{t.ID, t.pend.kind, t.pend.obj})
-		if t.pend.obj != "" {
-			m := s.objUsers[t.pend.obj]
+		h = (h ^ uint64(t.ID)) * 1099511628211
+		h = (h ^ t.pend.hk) * 1099511628211
+		h = (h ^ t.pend.ho) * 1099511628211
+		s.seqlog = append(s.seqlog, stepRec{t.ID, t.pend.hk, t.pend.ho})
+		if t.pend.ho != 0 {
+			m := s.objUsers[t.pend.ho]
 			if m == nil {
 				m = map[int]bool{}
-				s.objUsers[t.pend.obj] = m
+				s.objUsers[t.pend.ho] = m
 			}
 			m[t.ID] = true
 		}
-		t.last = t.pend.kind
+		t.lastWin = t.pend.win
 		t.steps++
 		s.running = t
 		cur = t
@@ -569,7 +585,7 @@ func (s *Sim) Run() {
 		rawRead(s.srfd)
 		cur = nil
 	}
-	s.finishHashes(h.Sum64())
+	s.finishHashes(h)
 	active, cur = nil, nil
 	s.wg.Wait() // real happens-before edge: task results are read after this
 }
@@ -577,13 +593,15 @@ func (s *Sim) Run() {
 //go:norace
 func (s *Sim) finishHashes(h uint64) {
 	s.hash = h
-	c := fnv.New64a()
+	c := uint64(14695981039346656037)
 	for _, r := range s.seqlog {
-		if len(s.objUsers[r.obj]) >= 2 {
-			fmt.Fprintf(c, "%d|%s|%s;", r.task, r.kind, r.obj)
+		if len(s.objUsers[r.ho]) >= 2 {
+			c = (c ^ uint64(r.task)) * 1099511628211
+			c = (c ^ r.hk) * 1099511628211
+			c = (c ^ r.ho) * 1099511628211
 		}
 	}
-	s.chash = c.Sum64()
+	s.chash = c
 }
 
 func (s *Sim) Hash() uint64         { return s.hash }
@@ -594,7 +612,11 @@ func (s *Sim) describeBlocked() string {
 	out := ""
 	for _, t := range s.tasks {
 		if !t.done {
-			out += fmt.Sprintf("task %d (%s) blocked at %s %s; ", t.ID, t.Name, t.pend.kind, t.pend.obj)
+			what := "op"
+			if t.pend.lock != 0 {
+				what = fmt.Sprintf("lock-op %d on mu%d", t.pend.lk, s.lockOf(t.pend.lock).id)
+			}
+			out += fmt.Sprintf("task %d (%s) blocked at %s; ", t.ID, t.Name, what)
 		}
 	}
 	return out
@@ -602,37 +624,10 @@ func (s *Sim) describeBlocked() string {
 
 // Lock kinds for simsync.
 const (
-	KLock    = kLock
-	KRLock   = kRLock
-	KUnlock  = kUnlock
-	KRUnlock = kRUnlock
-	KTryLock = kTryLock
+	KLock     = kLock
+	KRLock    = kRLock
+	KUnlock   = kUnlock
+	KRUnlock  = kRUnlock
+	KTryLock  = kTryLock
+	KTryRLock = kTryRLock
 )
-
-// TryGrant is used by TryLock shims: report whether the model lock is free and
-// take it if so. Must be called right after YieldLock(..., KTryLock).
-//
-//go:norace
-func TryGrant(lock uintptr, read bool) bool {
-	s := active
-	if s == nil || cur == nil {
-		return true
-	}
-	ls := s.locks[lock]
-	if ls == nil {
-		ls = &lockState{writer: -1, readers: map[int]int{}}
-		s.locks[lock] = ls
-	}
-	if read {
-		if ls.writer >= 0 {
-			return false
-		}
-		ls.readers[cur.ID]++
-		return true
-	}
-	if ls.writer >= 0 || len(ls.readers) > 0 {
-		return false
-	}
-	ls.writer = cur.ID
-	return true
-}
